@@ -463,9 +463,9 @@ func (i *c12Inst) Deep() []rep.Violation {
 }
 
 func runC12(r *rep.Run) {
-	depth := 3
+	depth := 4
 	if r.Tier == "thorough" {
-		depth = 5
+		depth = 6
 	}
 	r.Rule = "BFS over histories of page-setting calls (5 standard sizes, 12 custom sizes incl. range bounds and the 1 mm recognition window, orientations incl. invalid, margins/distances/gutter incl. negative, 17 doc-grid settings, clear, full/default/nil/invalid records, read, reopen, add paragraph) on a real Document in lock-step with a settings record; after every call GetPageSettings is compared with the record within one twip (a custom size inside the 1 mm window may read as the standard size), w:pgSz with the record's physical size, and a rejected call must change nothing; state key = section attribute strings + record; non-trivial = an accepted setter or a reopen; distinct states are saved and w:pgSz/w:pgMar/w:docGrid re-read"
 	r.Bounds["depth"] = depth
